@@ -111,12 +111,13 @@ def shift(b, days):
     d = dt6(b) + datetime.timedelta(days=days)
     return cat_tok.date(d.year, d.month, d.day)
 
-NAMEV = ('match', 'mismatch')
+NAMEV = ('match', 'mismatch', 'prefix')
 VALV = ('nested_eq', 'nested_in', 'overlap_end', 'from_at_until', 'from_before', 'from_after')
 VAL_OK = ('nested_eq', 'nested_in', 'overlap_end', 'from_at_until')       # btok.h: issuer.from <= cert.from <= issuer.until; cert.until is free
 KEYV = ('right', 'wrong', 'wronglen')
 VARSETS = {'full': [(n, v, k) for n in NAMEV for v in VALV for k in KEYV],
-           'reduced': [(n, v, k) for n in NAMEV for v in ('nested_eq', 'overlap_end', 'from_before', 'from_after') for k in ('right', 'wrong')]}
+           'mid': [(n, v, k) for n in NAMEV[:2] for v in VALV for k in KEYV],
+           'reduced': [(n, v, k) for n in NAMEV[:2] for v in ('nested_eq', 'overlap_end', 'from_before', 'from_after') for k in ('right', 'wrong')]}
 
 def period(vv, F, U):
     span = (dt6(U) - dt6(F)).days
@@ -150,9 +151,15 @@ def make_node(parent, level, kl, variant):
     n.priv = cat_tok.privkey(kl, level)
     pc = parent.content
     f, u = period(vv, pc['from_'], pc['until'])
-    auth = pc['holder'] if nv == 'match' else cat_tok.name(len(pc['holder']), 40 + level)
-    if auth == pc['holder'] and nv != 'match':
-        auth = cat_tok.name(len(pc['holder']), 41 + level)
+    h = pc['holder']
+    if nv == 'match':
+        auth = h
+    elif nv == 'prefix':                      # one name is a proper prefix of the other
+        auth = h + b'X' if len(h) < 12 else h[:-1]
+    else:
+        auth = cat_tok.name(len(h), 40 + level)
+        if auth == h:
+            auth = cat_tok.name(len(h), 41 + level)
     hat = ('eid', 'esign', 'none')[level % 3]
     n.req = cat_tok.mk(auth, cat_tok.name(8 + (level * 3 + kl) % 5, level), T.pubkey_of(n.priv), f, u, *cat_tok.HATS[hat])
     n.signer = {'right': parent.priv, 'wrong': cat_tok.privkey(len(parent.priv), 77), 'wronglen': cat_tok.privkey(other_len(len(parent.priv)), 78)}[kv]
@@ -192,9 +199,9 @@ def node_checks(parent, n, dates=True):
         f, u = n.content['from_'], n.content['until']
         for what, d, inside in (('date=from', f, True), ('date=until', u, True), ('date=from-1', shift(f, -1), False), ('date=until+1', shift(u, 1), False),
                                 ('date=month13', bytes([f[0], f[1], 1, 3, 0, 1]), False), ('date=Feb30', bytes([f[0], f[1], 0, 2, 3, 0]), False)):
-            fn = 'btokCVCVal' if what in ('date=from', 'date=until+1', 'date=month13') else 'btokCVCVal2'
-            r = run_fn(fn, dict(cert=n.cert, certa=parent.cert, date=d, want=1)); calls += 1
-            verdict('%s(%s)' % (fn, what), r['ret'], want and inside, ' at check date %s' % d.hex())
+            for fn in ('btokCVCVal', 'btokCVCVal2'):
+                r = run_fn(fn, dict(cert=n.cert, certa=parent.cert, date=d, want=1)); calls += 1
+                verdict('%s(%s)' % (fn, what), r['ret'], want and inside, ' at check date %s' % d.hex())
     return out, calls
 
 def chain_job(job):
@@ -227,7 +234,8 @@ def chain_jobs(tier):
     if tier == 'quick':
         plans = [((32, 24, 48, 64), 3, 'reduced'), ((64, 32), 1, 'full'), ((24, 48, 32), 2, 'full'), ((48, 64, 24), 2, 'reduced')]
     else:
-        plans = [((32, 32, 32, 32), 3, 'full'), ((24, 32, 48, 64), 3, 'full'), ((64, 48, 32, 24), 3, 'reduced'), ((48, 24, 64, 32), 3, 'reduced')]
+        plans = [((32, 32, 32, 32), 3, 'mid'), ((24, 32, 48, 64), 3, 'mid'), ((64, 48, 32, 24), 3, 'reduced'), ((48, 24, 64, 32), 3, 'reduced'),
+                 ((32, 48, 24), 2, 'full'), ((64, 24, 32), 2, 'full')]
         plans += [((a, b), 1, 'full') for a in cat_tok.KLENS for b in cat_tok.KLENS]
     for kls, depth, vset in plans:
         for first in VARSETS[vset]:
@@ -582,7 +590,7 @@ def holds(buf, key):
 
 def bpki_item(item):
     kind, key, epki, pwd, masks, label = item
-    wr, un = ('bpkiPrivkeyWrap', 'bpkiPrivkeyUnwrap') if kind == 'privkey' else ('bpkiShareWrap', 'bpkiShareUnwrap')
+    wr, un = ('bpkiPrivkeyWrap', 'bpki.PrivkeyOpen') if kind == 'privkey' else ('bpkiShareWrap', 'bpki.ShareOpen')
     viol = []
     calls = 0
     what = '%s %d octets, %s' % (kind, len(key), label)
@@ -606,6 +614,10 @@ def bpki_item(item):
             if r['ret'] != E['BAD_KEYTOKEN']:
                 viol.append(('bpki:wrong-pwd-code:%s%d' % (kind, len(key)), None, '%s(%s) reports %#x for a wrong password; the belt-kwp integrity failure is documented as ERR_BAD_KEYTOKEN (belt.h) '
                              'and is what every other container length reports' % (un, what, r['ret'])))
+    for x, how in ((epki + b'\0', 'one octet appended'), (epki[:-1], 'last octet removed'), (epki[1:], 'first octet removed')):
+        r = run_fn(un, dict(klen=len(key), epki=x, pwd=pwd)); calls += 1
+        if r['ret'] == 0:
+            viol.append(('bpki:length-accepted', None, '%s(%s): container with %s accepted' % (un, what, how)))
     for m in masks:
         for j in range(len(epki)):
             x = bytearray(epki); x[j] ^= m
@@ -624,6 +636,10 @@ def csr_item(item):
     r = run_fn('bpkiCSRUnwrap', dict(csr=csr)); calls += 1
     if r['ret']:
         return [('csr:base', None, 'valid CSR refused: %#x' % r['ret'])], calls
+    for x, how in ((csr + b'\0', 'one octet appended'), (csr[:-1], 'last octet removed')):
+        r = run_fn('bpkiCSRUnwrap', dict(csr=x)); calls += 1
+        if r['ret'] == 0:
+            viol.append(('csr:length-accepted', None, 'bpkiCSRUnwrap accepts the request with %s' % how))
     for j in range(len(csr)):
         x = bytearray(csr); x[j] ^= mask
         r = run_fn('bpkiCSRUnwrap', dict(csr=bytes(x))); calls += 1
